@@ -49,7 +49,13 @@ type KVTermCount struct {
 
 // NewIndex create new key value index
 func NewIndex(kv kvi.KVInterface) *KVIndex {
-	return &KVIndex{KV: kv, Fields: make(map[string][]string)}
+	idx := &KVIndex{KV: kv, Fields: make(map[string][]string)}
+	// the indexed fields are persisted under the field keys: reload them, so that
+	// documents added after the store is reopened are indexed as before
+	for _, path := range idx.ListFields() {
+		idx.Fields[path] = strings.Split(path, ".")
+	}
+	return idx
 }
 
 // AddField add new field to be indexed
